@@ -33,6 +33,7 @@ RULE = (
     "good line, or a fault case; distinct = distinct case JSON."
     ' Round 5: a `duplex` kind: several connections on one transport object, writes while a read waits (for data / for the rest of a line), disconnect variants, use after disconnect.'
     ' Round 6: lost-link cases reconnect on the same object and read from the new connection; duplex cases issue 2-3 concurrent writes under back-pressure (bytes must be the lines in call order).'
+    ' Round 7: cases also run with the library at DEBUG; use after a failed connect must raise a transport error.'
 )
 ASSUMPTIONS = [
     "asyncio.StreamReader.readuntil semantics for over-long lines (data stays in the reader) are trusted; no recovery is demanded after them",
@@ -104,6 +105,7 @@ def _duplex_case(draw) -> dict:
             "pending": draw(st.sampled_from(("none", "empty", "partial", "partial"))),
             "end": draw(st.sampled_from(("disconnect", "disconnect", "disconnect-twice", "eof-then-disconnect"))),
             "concurrent": draw(st.one_of(st.just([]), st.lists(st.sampled_from(LONG_WRITES), min_size=2, max_size=3))),
+            "cancel_read": draw(st.sampled_from((None, None, 0, 1, 2, 3))),
         })
     return {"kind": "duplex", "transport": draw(st.sampled_from(("base", "tcp", "serial"))), "sessions": sessions}
 
@@ -116,6 +118,9 @@ def _duplex_enumerated():
                 two = {"lines": ["7;255;0;0;17;2.3.2"], "writes": ["255;255;3;0;4;7\n"], "pending": pending, "end": "disconnect"}
                 yield {"kind": "duplex", "transport": transport, "sessions": [one]}
                 yield {"kind": "duplex", "transport": transport, "sessions": [one, two, one]}
+        for k in range(0, 5):
+            for count in (1, 3):
+                yield {"kind": "duplex", "transport": transport, "sessions": [{"lines": ["1;1;1;0;0;20.5", "2;2;1;0;0;x", "3;3;1;0;0;y"][:count], "writes": [], "pending": "none", "end": "eof-then-disconnect", "cancel_read": k}]}
         for burst in (list(LONG_WRITES[:2]), list(LONG_WRITES[:3]), [LONG_WRITES[1], LONG_WRITES[2], LONG_WRITES[3]], [LONG_WRITES[4], LONG_WRITES[0]]):
             yield {"kind": "duplex", "transport": transport, "sessions": [{"lines": ["1;1;1;0;0;20.5"], "writes": ["1;1;1;0;2;1\n"], "pending": "partial", "end": "disconnect", "concurrent": burst}]}
 
@@ -526,6 +531,20 @@ def _run_duplex(case: dict) -> Outcome:
                         return fail("duplex:concurrent-writes-interleaved", f"{where}: {len(burst)} tasks wrote one line each (call order); the connection received {bytes(mem.data)[-300:]!r}")
                 reader.feed_data(raw[0][fed_first:] + b"".join(raw[1:]))
                 got = []
+                cancel_after = session.get("cancel_read")
+                if cancel_after is not None and pending is None:
+                    # a read is cancelled (timeout, shutdown) k loop steps after its line arrived: the line is returned by that read or by the next one
+                    attempt = asyncio.ensure_future(transport.read())
+                    for _ in range(int(cancel_after)):
+                        await asyncio.sleep(0)
+                    if not attempt.done():
+                        attempt.cancel()
+                    try:
+                        got.append(await attempt)
+                    except asyncio.CancelledError:
+                        info["cancelled_reads"] = info.get("cancelled_reads", 0) + 1
+                    except Exception as err:  # noqa: BLE001
+                        return fail(f"duplex:read-raises:{type(err).__name__}", f"{where}: a read cancelled after {cancel_after} steps raised {err!r}")
                 try:
                     if pending is not None:
                         got.append(await asyncio.wait_for(pending, 30))
@@ -538,8 +557,23 @@ def _run_duplex(case: dict) -> Outcome:
                 if [g.rstrip("\n") for g in got] != lines or any(not g.endswith("\n") for g in got):
                     return fail("duplex:read-wrong-lines", f"{where}: read {got!r}, this connection carried {lines!r}")
                 if session["end"] == "eof-then-disconnect":
+                    # the peer half-closes: the incoming stream ends (a read says so), the outgoing direction still works
                     reader.feed_eof()
                     await asyncio.sleep(0)
+                    try:
+                        await asyncio.wait_for(transport.read(), 30)
+                        return fail("duplex:read-after-eof-no-error", f"{where}: the stream has ended but read returned")
+                    except TransportError:
+                        pass
+                    except Exception as err:  # noqa: BLE001
+                        return fail(f"duplex:read-after-eof-leak:{type(err).__name__}", f"{where}: read at end of stream raised {err!r}")
+                    try:
+                        await asyncio.wait_for(transport.write("9;9;1;0;2;after-eof\n"), 30)
+                    except Exception as err:  # noqa: BLE001
+                        return fail(f"duplex:write-after-read-eof:{type(err).__name__}", f"{where}: the incoming stream ended (no fault on the outgoing side, connection open), write raised {err!r}")
+                    want_out += b"9;9;1;0;2;after-eof\n"
+                    if bytes(mem.data) != want_out:
+                        return fail("duplex:write-bytes-differ", f"{where}: after the incoming stream ended the connection holds {bytes(mem.data)[-80:]!r}")
                 try:
                     await transport.disconnect()
                     if session["end"] == "disconnect-twice":
